@@ -227,9 +227,18 @@ class CommitGraph:
 
         # Read chunks
         # Offsets in TOC are absolute from start of file
+        toc_end = f.tell()
+        f.seek(0, 2)
+        file_size = f.tell()
         for i in range(num_chunks):
             chunk_id, offset = toc_entries[i]
             next_offset = toc_entries[i + 1][1]
+            # The offsets come from the file: do not let a corrupt table of
+            # contents drive the size of the read below.
+            if not (toc_end <= offset <= next_offset <= file_size):
+                raise ValueError(
+                    f"Invalid commit graph chunk offsets: {offset}..{next_offset}"
+                )
             chunk_size = next_offset - offset
 
             f.seek(offset)
